@@ -75,6 +75,22 @@ CLAIMED = {
              'without dependants is accepted.',
         technique=TECH + ': seeded operation histories with trim and restart faults vs. untrimmed reference model',
         design='DESIGN.md section 3 C08'),
+    'C09': dict(
+        level='fault_enumeration',
+        text='Fault enumeration over fault sites: every formula cell of each generated workbook in turn is the '
+             'failing cell (BOOM plugin raising one of six exception classes on its k-th call, once or until '
+             'disarmed; or an unknown function), in plain and iterative mode, incl. members of ranges, CSE '
+             'blocks, cells under an operator that captured an error value first, and cells inside a '
+             'contracting circular block; followed by retry / input-write / repair (disarm, expiry, '
+             'overwrite with a constant) / follow-up histories and a final sweep. An exception is accepted '
+             'only on F or a dependant, only while the fault fires in that read, and only as a '
+             'PyCelException; every returned value must equal the fault-free reference.',
+        note='Trusted: BOOM/unknown-function as the model of "error inside a library or plugin function"; '
+             'harness DAG for "depends on F". Sites are enumerated per workbook; workbooks, fault plans and '
+             'follow-up histories are sampled. One known finding (KF1, iterative mode ignores an overwrite of '
+             'a formula cell) is re-confirmed by a fixed minority of runs and avoided by the rest.',
+        technique=TECH + ': enumerated fault sites x seeded fault plans and recovery histories vs. fault-free reference model',
+        design='DESIGN.md section 3 C09'),
 }
 
 NOT_APPLICABLE = {
@@ -91,7 +107,7 @@ NOT_APPLICABLE = {
     'C20': 'text functions are pure string functions',
 }
 
-PENDING = {k: 'applicable (see DESIGN.md) but its check is not built yet in this snapshot; not claimed until it is' for k in ('C03', 'C07', 'C09', 'C12')}
+PENDING = {k: 'applicable (see DESIGN.md) but its check is not built yet in this snapshot; not claimed until it is' for k in ('C03', 'C07', 'C12')}
 
 
 def main():
